@@ -78,7 +78,7 @@ fn certainly_ill_formed(line: &str) -> Option<&'static str> {
 
 pub fn run(tier: Tier) -> i32 {
     let rep = Report::new("C17", tier, "model_checking");
-    rep.set_rule("SCOPE: (forms) utterances (incl. labels whose first phoneme is named like a number: 2, -1, 1e3, .5, +0; one utterance of 300 lines; inputs of 1023..65537 lines (thorough: 300001) compared as parsed label lists and time stamps, with blank lines and with one malformed line; sentence ends on a voice whose trees ask about the undefined-phoneme marker) x {&[&str], &[String], Vec<String>, &[&str; N], Vec<Label>} x a blank line inserted at every position x time stamps present/absent/zero-length/all zero/backwards/astronomical with alignment off (utterances incl. one with sil and pau labels), and time-stamped lines with blank lines at every position with alignment on, waveforms compared bit-exactly; (faults) 5 base lines (plain label, label with times, label with fractional times, and two already ill-formed ones: one time stamp deleted, /K: section deleted): every single-character deletion, duplication, and substitution/insertion from a 33-symbol alphabet (incl. line breaks) at every position, every prefix truncation, every token deletion/duplication, 14 special time tokens; thorough: all pairs of substitutions on a 40-character window; oracle: never a panic, Err required for certainly ill-formed lines (two tokens, time rejected by f64::from_str, missing phoneme separator or /A:../K: marker); distinct = distinct corrupted line; non-trivial = line differs from the base");
+    rep.set_rule("SCOPE: (forms) utterances (incl. labels whose first phoneme is named like a number (2, -1, 1e3, .5, +0) or starts with a byte order mark or an exotic space; one utterance of 300 lines; inputs of 1023..65537 lines (thorough: 300001) compared as parsed label lists and time stamps, with blank lines and with one malformed line; sentence ends on a voice whose trees ask about the undefined-phoneme marker) x {&[&str], &[String], Vec<String>, &[&str; N], Vec<Label>} x a blank line inserted at every position x time stamps present/absent/zero-length/all zero/backwards/astronomical with alignment off (utterances incl. one with sil and pau labels), and time-stamped lines with blank lines at every position with alignment on, waveforms compared bit-exactly; (faults) 5 base lines (plain label, label with times, label with fractional times, and two already ill-formed ones: one time stamp deleted, /K: section deleted): every single-character deletion, duplication, and substitution/insertion from a 39-symbol alphabet (incl. line breaks, byte order mark, no-break / zero-width / ideographic space, NEL, line separator) at every position, every prefix truncation, every token deletion/duplication, 14 special time tokens; thorough: all pairs of substitutions on a 40-character window; oracle: never a panic, Err required for certainly ill-formed lines (two tokens, time rejected by f64::from_str, missing phoneme separator or /A:../K: marker); distinct = distinct corrupted line; non-trivial = line differs from the base");
     rep.assume("single faults (pairs on one window in the thorough tier); lines that are not certainly ill-formed may be accepted or rejected");
     let corpus = labels::corpus();
     let tiny = engine_from_bytes(&GenCfg { nstate: 2, ..GenCfg::default() }.bytes()).expect("generated voice");
@@ -86,7 +86,8 @@ pub fn run(tier: Tier) -> i32 {
     // ---------- forms ----------
     let mut utts: Vec<Vec<String>> = vec![vec![], vec![corpus[41].clone()], corpus[40..43].to_vec(), corpus[0..2].to_vec(), corpus[100..105].to_vec()];
     // labels whose text starts like a number (a phoneme named "2", "-1", "1e3", ".5"): still labels, not time stamps
-    for name in ["2", "-1", "1e3", ".5", "+0"] {
+    // ... or like something a text reader might strip (byte order mark, no-break and ideographic space, zero-width space)
+    for name in ["2", "-1", "1e3", ".5", "+0", "\u{feff}a", "\u{a0}k", "\u{3000}", "\u{200b}o"] {
         let u: Vec<String> = corpus[40..42].iter().map(|l| format!("{}{}", name, &l[l.find('^').unwrap()..])).collect();
         if u.iter().all(|l| l.parse::<jlabel::Label>().is_ok()) {
             utts.insert(2, u);
@@ -258,7 +259,7 @@ pub fn run(tier: Tier) -> i32 {
         rep.note("long_inputs", json!({"line_counts": counts, "cases": long_cases.load(Ordering::Relaxed)}));
     }
     // ---------- faults ----------
-    let alphabet: Vec<String> = vec![" ", "\t", "\0", "/", ":", "+", "-", "=", "^", "_", "!", "#", "@", "|", "&", "%", "0", "9", "x", "a", "A", "Z", ".", "e", "E", "*", "?", "\"", "\u{3042}", "\u{7f}", "\n", "\r\n", "\r"].into_iter().map(String::from).collect();
+    let alphabet: Vec<String> = vec![" ", "\t", "\0", "/", ":", "+", "-", "=", "^", "_", "!", "#", "@", "|", "&", "%", "0", "9", "x", "a", "A", "Z", ".", "e", "E", "*", "?", "\"", "\u{3042}", "\u{7f}", "\n", "\r\n", "\r", "\u{feff}", "\u{a0}", "\u{200b}", "\u{85}", "\u{2028}", "\u{3000}"].into_iter().map(String::from).collect();
     // three well-formed bases, and two that are already ill-formed (every fault on them is a double fault of the
     // original line): a two-token line (one time stamp deleted) and a timed line whose label lost its /K: section
     let bases: Vec<String> = vec![
